@@ -134,6 +134,12 @@ def run_property(pid, tier, seed):
     try:
         if model_ok:
             mod.correspondence(ctx)
+            from harness import layerb
+            for mm in layerb.MISMATCHES[:5]:
+                ctx.disagree("pool-order-vs-model:" + mm["scheme"], "vcmp %s" % mm["scheme"], mm["real_operators_say"], mm["model_says"], False,
+                             dict(mm, note="the versions used by this check are ranked with the real operators; the scheme's Lean "
+                                           "model orders this pair differently, so what the check established on ranks is not tied "
+                                           "to the model of the scheme any more (C01-C03 and C11 look at such pairs directly)"))
         if hasattr(mod, "replay_known"):
             mod.replay_known(ctx)
         if (ctx.proof_broken or ctx.tie_broken) and not ctx.rep.violations and hasattr(mod, "search"):
